@@ -2379,3 +2379,29 @@ mutant("c15-f51-connect-error-leaves-pending", "C15", "C15-D8", "client_socket.g
 """, "")
 mutant("c16-f52-callers-transports-rearranged", "C16", "C16-D6", "engine.io/client.go",
        "		transports = slices.Clone(config.Transports)", "		transports = slices.Clip(config.Transports)")
+
+# F53 / F54
+mutant("c08-f53-persist-before-the-cleanup", "C08", "C08-D4", "server_socket.go",
+       """		s.leaveAll()
+
+		s.nsp.remove(s)
+		s.conn.remove(s)
+""",
+       """		if session != nil {
+			s.adapter.PersistSession(session)
+		}
+		s.leaveAll()
+
+		s.nsp.remove(s)
+		s.conn.remove(s)
+""")
+MUTANTS[-1]["then"] = ("""		if session != nil {
+			s.adapter.PersistSession(session)
+		}
+
+		s.connectedMu.Lock()""", """		s.connectedMu.Lock()""")
+mutant("c08-f53-remove-by-id-alone", "C08", "C08-D12", "namespace.go",
+       "	if registered, ok := n.sockets.get(socket.ID()); ok && registered == ServerSocket(socket) {",
+       "	if registered, ok := n.sockets.get(socket.ID()); ok && registered != nil {")
+mutant("c08-f54-restored-session-stays", "C08", "C08-D13", "adapter/adapter_session_aware.go",
+       "	delete(a.sessions, pid)\n	return session, true", "	return session, true")
